@@ -14,7 +14,7 @@ PROFILES = {
  "pool":   dict(ops={"pacq":6,"prel":5,"ppre":3,"hold":5,"tadd":2,"intr":2,"stop":1,"prio":2,"exit":1}, np=(2,4), uev=0),
  "buf":    dict(ops={"bput":6,"bget":6,"hold":4,"tadd":2,"intr":2,"stop":1,"prio":1}, np=(2,4), uev=0),
  "queue":  dict(ops={"qput":5,"qget":5,"pqput":5,"pqget":5,"pqcancel":2,"pqreprio":2,"hold":4,"tadd":2,"intr":2,"stop":1,"prio":1}, np=(2,4), uev=0),
- "cond":   dict(ops={"cwait":6,"csig":4,"setflag":5,"hold":4,"tadd":2,"intr":1,"acq":2,"rel":2,"bput":1,"bget":1,"prio":1,"stop":1,"ccancel":1,"cremove":1,"csub":1}, np=(2,4), uev=1),
+ "cond":   dict(ops={"cwait":6,"csig":4,"setflag":5,"hold":4,"tadd":2,"intr":1,"acq":2,"rel":2,"bput":1,"bget":1,"prio":1,"stop":1,"ccancel":1,"cremove":1,"csub":1,"cunsub":1}, np=(2,4), uev=1),
  "contend": dict(ops={}, np=(2,4), uev=0, contend=True),
  "end":    dict(ops={"hold":4,"acq":3,"pacq":3,"wproc":4,"stop":3,"exit":2,"start":2,"tadd":2,"intr":1,"rel":1,"bget":1,"qget":1}, np=(2,4), uev=1),
  "rec":    dict(ops={"acq":4,"rel":4,"pre":1,"pacq":3,"prel":3,"ppre":1,"bput":3,"bget":3,"qput":2,"qget":2,"pqput":2,"pqget":2,"pqcancel":1,"hold":5,"intr":1,"stop":1,"rec":0}, np=(2,3), uev=0, rec=True),
@@ -53,6 +53,7 @@ def gen_instr(rng, op, np, me, caps):
     if op == "setflag": return "setflag %d %d" % (rng.randint(0, 1), rng.randint(0, 1))
     if op in ("ccancel", "cremove"): return "%s %d" % (op, q)
     if op == "csub": return "csub %d" % rng.randint(0, 1)
+    if op == "cunsub": return "cunsub %d" % rng.randint(0, 1)
     return "nop"
 
 def contend_script(rng, np, me, caps, pkind):
@@ -186,7 +187,7 @@ def gen_soup(rng, pid):
     lines = ["prog %d" % pid, "cap res=%d pool=%d buf=%d oq=%d pq=%d bufunit=%d" % (caps["res"], caps["pool"], caps["buf"], caps["oq"], caps["pq"], bufunit)]
     allops = ["hold"] * 6 + ["tadd"] * 3 + ["tcancel", "tclear", "wproc", "wproc", "wevent", "intr", "intr", "stop", "exit", "yield", "resume", "prio", "prio", "start",
               "acq", "acq", "acq", "rel", "rel", "pre", "pacq", "pacq", "prel", "prel", "ppre", "bput", "bput", "bget", "bget", "qput", "qget", "pqput", "pqget",
-              "pqcancel", "pqreprio", "cwait", "cwait", "csig", "setflag", "setflag", "ccancel", "cremove"]
+              "pqcancel", "pqreprio", "cwait", "cwait", "csig", "setflag", "setflag", "ccancel", "cremove", "csub", "cunsub"]
     for p in range(1, np_ + 1):
         code = []
         if p == 1:
